@@ -61,19 +61,19 @@ structure RelC02 (s : St) (ms : C02St) : Prop where
   mlt   : ∀ p, p ∈ ms.modes → p.1 < s.th.length
   cx    : ms.cancelled = s.cx
 
-theorem modeOf_cons_ne (ms : C02St) (t u : Nat) (w : Bool) (h : t ≠ u) :
-    modeOf { ms with modes := (t, w) :: ms.modes } u = modeOf ms u := by
-  simp [modeOf, h]
+theorem modeOf_cons_ne (ms ms' : C02St) (t u : Nat) (w : Bool) (hm : ms'.modes = (t, w) :: ms.modes)
+    (h : t ≠ u) : modeOf ms' u = modeOf ms u := by
+  simp [modeOf, hm, h]
 
-theorem modeOf_cons_eq (ms : C02St) (t : Nat) (w : Bool) :
-    modeOf { ms with modes := (t, w) :: ms.modes } t = some w := by
-  simp [modeOf]
+theorem modeOf_cons_eq (ms ms' : C02St) (t : Nat) (w : Bool) (hm : ms'.modes = (t, w) :: ms.modes) :
+    modeOf ms' t = some w := by
+  simp [modeOf, hm]
 
 /-- side conditions under which moving thread `t` from `a` to `b` preserves `ThRel` -/
 structure MoveOK (ms : C02St) (cx : List Nat) (t : Nat) (a b : TS) : Prop where
   mode   : ∀ w, b.lockMode = some w → a.lockMode = some w
   cancel : b.cancelSt = true → a.cancelSt = true ∨ t ∈ cx
-  wwait  : a.wwait = true → (b.wwait = true ∧ (b.isParked = true → a.isParked = true)) ∨ (a.isParked = true ∧ t ∈ cx)
+  wwait  : a.wwait = true → (b.wwait = true ∧ (b.isParked = true → a.isParked = true)) ∨ (a.isParked = true ∧ t ∈ cx) ∨ t ∉ ms.waitingW
   rp     : a.readerPending = true → b.readerPending = true ∨ ∀ u, (t, u) ∉ ms.blockers
 
 theorem ThRel.move {th : List TS} {cx : List Nat} {ms : C02St} (h : ThRel th cx ms) {t : Nat} {a : TS}
@@ -95,9 +95,10 @@ theorem ThRel.move {th : List TS} {cx : List Nat} {ms : C02St} (h : ThRel th cx 
     by_cases e : t = u
     · subst e
       rw [ha] at hx; cases hx
-      rcases ok.wwait hw with ⟨h1, h2⟩ | ⟨h1, h2⟩
+      rcases ok.wwait hw with ⟨h1, h2⟩ | ⟨h1, h2⟩ | h1
       · exact ⟨b, by simp [hlt], h1, fun hb => hp (h2 hb)⟩
       · exact absurd h2 (hp h1)
+      · exact absurd hu h1
     · exact ⟨x, by rw [getElem?_set_ne' _ _ _ _ e]; exact hx, hw, hp⟩
   · intro r u hm
     obtain ⟨h1, x, hx, hr⟩ := h.bl r u hm
@@ -141,5 +142,583 @@ theorem ThRel.append {th : List TS} {cx : List Nat} {ms : C02St} (h : ThRel th c
   · intro r u hmm
     obtain ⟨h1, x, hx, hr⟩ := h.bl r u hmm
     exact ⟨h1, x, getElem?_snoc_left _ _ _ _ hx, hr⟩
+
+
+def Cover (th : List TS) (hs : Holders) : Prop :=
+  ∀ (t : Nat) (w : Bool), th[t]? = some (TS.held w) →
+    (t, w) ∈ hs ∨ ∃ c : Nat, th[c]? = some (TS.relInv t)
+
+theorem Cover.move {th : List TS} {hs : Holders} (h : Cover th hs) {t : Nat} {a : TS} (b : TS)
+    (ha : th[t]? = some a) (ha' : a.isRelInv = false) (hb : b.isHeld = false) :
+    Cover (th.set t b) hs := by
+  intro u w hu
+  rcases getElem?_set_cases _ _ _ _ _ hu with ⟨_, hx⟩ | ⟨hne, hu'⟩
+  · rw [← hx] at hb; cases hb
+  · rcases h u w hu' with h1 | ⟨c, hc⟩
+    · exact Or.inl h1
+    · have hct : t ≠ c := by
+        intro e; subst e; rw [ha] at hc; cases hc; cases ha'
+      exact Or.inr ⟨c, by rw [getElem?_set_ne' _ _ _ _ hct]; exact hc⟩
+
+theorem Cover.append {th : List TS} {hs : Holders} (h : Cover th hs) (b : TS) (hb : b.isHeld = false) :
+    Cover (th ++ [b]) hs := by
+  intro u w hu
+  rcases getElem?_snoc_cases _ _ _ _ hu with ⟨_, hu'⟩ | ⟨_, hx⟩
+  · rcases h u w hu' with h1 | ⟨c, hc⟩
+    · exact Or.inl h1
+    · exact Or.inr ⟨c, getElem?_snoc_left _ _ _ _ hc⟩
+  · rw [← hx] at hb; cases hb
+
+/-- a thread becomes `held w` and is added to the monitor's holders -/
+theorem Cover.grant {th : List TS} {hs : Holders} (h : Cover th hs) {t : Nat} {a : TS} (w : Bool)
+    (ha : th[t]? = some a) (ha' : a.isRelInv = false) :
+    Cover (th.set t (.held w)) ((t, w) :: hs) := by
+  have hlt := lt_of_getElem? ha
+  intro u w' hu
+  rcases getElem?_set_cases _ _ _ _ _ hu with ⟨rfl, hx⟩ | ⟨hne, hu'⟩
+  · cases hx; exact Or.inl (by simp)
+  · rcases h u w' hu' with h1 | ⟨c, hc⟩
+    · exact Or.inl (by simp [h1])
+    · have hct : t ≠ c := by
+        intro e; subst e; rw [ha] at hc; cases hc; cases ha'
+      exact Or.inr ⟨c, by rw [getElem?_set_ne' _ _ _ _ hct]; exact hc⟩
+
+theorem rel2_grant {th : List TS} {hs : Holders} (h2 : Rel2 th hs) {t : Nat} {a : TS} (w : Bool)
+    (h : th[t]? = some a) (hnh : ∀ w, a ≠ TS.held w) (haf : a.afterHeld = false) :
+    Rel2 (th.set t (.held w)) ((t, w) :: hs) := by
+  have hno := h2.not_holder h hnh
+  have hlt := lt_of_getElem? h
+  constructor
+  · intro u w' hm
+    simp at hm
+    rcases hm with ⟨rfl, rfl⟩ | hm
+    · simp [hlt]
+    · have hne : t ≠ u := by intro e; subst e; exact hno w' hm
+      rw [getElem?_set_ne' _ _ _ _ hne]; exact h2.held u w' hm
+  · intro c u hc'
+    have hct : t ≠ c := by intro e; subst e; simp [hlt] at hc'
+    rw [getElem?_set_ne' _ _ _ _ hct] at hc'
+    obtain ⟨h1, x, hx, hxa⟩ := h2.rel c u hc'
+    have hut : t ≠ u := by intro e; subst e; rw [h] at hx; cases hx; simp [haf] at hxa
+    refine ⟨?_, x, by rw [getElem?_set_ne' _ _ _ _ hut]; exact hx, hxa⟩
+    intro w' hm; simp at hm
+    rcases hm with ⟨rfl, _⟩ | hm
+    · exact hut rfl
+    · exact h1 w' hm
+
+/-- monitor update at a return / context cancellation of call `t`: `t` is forgotten as a waiting
+writer -/
+def forgetCall (ms : C02St) (t : Nat) : C02St :=
+  { ms with waitingW := ms.waitingW.filter (· != t), blockers := ms.blockers.filter (·.2 != t) }
+
+theorem ThRel.forget {th : List TS} {cx : List Nat} {ms : C02St} (h : ThRel th cx ms) (t : Nat) :
+    ThRel th cx (forgetCall ms t) := by
+  constructor
+  · intro u x w hu hm; exact h.modes u x w hu hm
+  · exact h.cxst
+  · intro u hu
+    simp only [forgetCall, List.mem_filter] at hu
+    exact h.ww u hu.1
+  · intro r u hm
+    simp only [forgetCall, List.mem_filter] at hm
+    obtain ⟨h1, hx⟩ := h.bl r u hm.1
+    refine ⟨?_, hx⟩
+    simp only [forgetCall, List.mem_filter]
+    exact ⟨h1, by simpa using hm.2⟩
+
+theorem forget_not_ww (ms : C02St) (t : Nat) : t ∉ (forgetCall ms t).waitingW := by
+  simp [forgetCall]
+
+theorem forget_not_bl (ms : C02St) (t r : Nat) : (r, t) ∉ (forgetCall ms t).blockers := by
+  simp [forgetCall]
+
+/-- `ThRel` does not depend on the holders component -/
+theorem ThRel.holders {th : List TS} {cx : List Nat} {ms : C02St} (h : ThRel th cx ms) (hs : Holders) :
+    ThRel th cx { ms with holders := hs } :=
+  ⟨h.modes, h.cxst, h.ww, h.bl⟩
+
+
+theorem countP_pos_exists {α : Type} (p : α → Bool) (l : List α) (h : 0 < l.countP p) :
+    ∃ (i : Nat) (x : α), l[i]? = some x ∧ p x = true := by
+  rw [List.countP_pos_iff] at h
+  obtain ⟨a, ha, hp⟩ := h
+  obtain ⟨i, hi⟩ := List.getElem?_of_mem ha
+  exact ⟨i, a, hi, hp⟩
+
+/-- while a reader is recorded as queued behind a known waiting writer, readers are not admitted -/
+theorem blocked_reader (s : St) (ms : C02St) (hi : Inv s) (h : ThRel s.th s.cx ms) (r u : Nat)
+    (hm : (r, u) ∈ ms.blockers) : s.writing = true ∨ s.writeWaiting ≠ 0 := by
+  obtain ⟨hu, _⟩ := h.bl r u hm
+  obtain ⟨x, hx, hw, _⟩ := h.ww u hu
+  cases x with
+  | parked w c =>
+    cases w
+    · simp [TS.wwait] at hw
+    · right
+      have := countP_pos_of_getElem? TS.waitingWriter _ _ _ hx (by simp)
+      rw [← hi.ww] at this; omega
+  | granted w =>
+    cases w
+    · simp [TS.wwait] at hw
+    · left
+      have := countP_pos_of_getElem? (TS.holds true) _ _ _ hx (by simp)
+      rw [hi.writers] at this
+      split at this <;> simp_all
+  | _ => simp [TS.wwait] at hw
+
+theorem attempt_threl (s : St) (ms : C02St) (t : Nat) (w first : Bool) (a : TS) (hi : Inv s)
+    (h : ThRel s.th s.cx ms) (ha : s.th[t]? = some a)
+    (hcase : a = .lockInv w ∨ ∃ c, a = .parked w c) :
+    ThRel (attempt s t w first).th s.cx ms := by
+  have nb : (!s.writing) = true ∧ s.writeWaiting = 0 → ∀ u, (t, u) ∉ ms.blockers := by
+    intro ⟨h1, h2⟩ u hm
+    rcases blocked_reader s ms hi h t u hm with h3 | h3
+    · simp [h3] at h1
+    · exact h3 h2
+  unfold attempt
+  split
+  · rename_i hw; subst hw
+    split
+    · -- writer parks
+      apply h.move _ ha
+      rcases hcase with rfl | ⟨c, rfl⟩
+      · exact ⟨by intro w h; simpa [TS.lockMode] using h, by simp [TS.cancelSt], by simp [TS.wwait], by simp [TS.readerPending]⟩
+      · exact ⟨by intro w h; simpa [TS.lockMode] using h, by simp [TS.cancelSt],
+               by intro _; left; simp [TS.wwait, TS.isParked], by simp [TS.readerPending]⟩
+    · -- writer granted
+      apply h.move _ ha
+      rcases hcase with rfl | ⟨c, rfl⟩
+      · exact ⟨by intro w h; simpa [TS.lockMode] using h, by simp [TS.cancelSt], by simp [TS.wwait], by simp [TS.readerPending]⟩
+      · exact ⟨by intro w h; simpa [TS.lockMode] using h, by simp [TS.cancelSt],
+               by intro _; left; simp [TS.wwait, TS.isParked], by simp [TS.readerPending]⟩
+  · rename_i hw
+    have hw' : w = false := by cases w <;> simp_all
+    subst hw'
+    split
+    · -- reader granted: it has no blockers
+      rename_i hg
+      apply h.move _ ha
+      rcases hcase with rfl | ⟨c, rfl⟩
+      · exact ⟨by intro w h; simpa [TS.lockMode] using h, by simp [TS.cancelSt], by simp [TS.wwait],
+               by intro _; right; exact nb hg⟩
+      · exact ⟨by intro w h; simpa [TS.lockMode] using h, by simp [TS.cancelSt], by simp [TS.wwait],
+               by intro _; right; exact nb hg⟩
+    · -- reader parks
+      apply h.move _ ha
+      rcases hcase with rfl | ⟨c, rfl⟩
+      · exact ⟨by intro w h; simpa [TS.lockMode] using h, by simp [TS.cancelSt], by simp [TS.wwait], by simp [TS.readerPending]⟩
+      · exact ⟨by intro w h; simpa [TS.lockMode] using h, by simp [TS.cancelSt], by simp [TS.wwait], by simp [TS.readerPending]⟩
+
+theorem attempt_cover (s : St) (hs : Holders) (t : Nat) (w first : Bool) (a : TS)
+    (h : Cover s.th hs) (ha : s.th[t]? = some a) (ha' : a.isRelInv = false) :
+    Cover (attempt s t w first).th hs := by
+  unfold attempt
+  split <;> split <;> exact h.move _ ha ha' rfl
+
+theorem attempt_len (s : St) (t : Nat) (w first : Bool) : (attempt s t w first).th.length = s.th.length := by
+  unfold attempt; split <;> split <;> simp
+
+theorem attempt_cx (s : St) (t : Nat) (w first : Bool) : (attempt s t w first).cx = s.cx := by
+  unfold attempt; split <;> split <;> rfl
+
+
+theorem wwait_cases (x : TS) (h : x.wwait = true) : (∃ c, x = .parked true c) ∨ x = .granted true := by
+  cases x with
+  | parked w c => cases w <;> simp [TS.wwait] at h; exact Or.inl ⟨c, rfl⟩
+  | granted w => cases w <;> simp [TS.wwait] at h; exact Or.inr rfl
+  | _ => simp [TS.wwait] at h
+
+theorem quiet_of_quiescent (s : St) (hq : quiescent s = true) (t : Nat) (x : TS)
+    (hx : s.th[t]? = some x) : TS.quiet s t x = true := by
+  unfold quiescent at hq
+  rw [List.all_eq_true] at hq
+  have := hq t (by simp; exact lt_of_getElem? hx)
+  simpa [hx] using this
+
+theorem mem_pendingIds (s : St) (t : Nat) :
+    t ∈ pendingIds s ↔ ∃ w c, s.th[t]? = some (TS.parked w c) := by
+  unfold pendingIds
+  simp only [List.mem_filter, List.mem_range]
+  constructor
+  · intro ⟨_, h⟩
+    split at h <;> simp at h
+    rename_i w c hx
+    exact ⟨w, c, hx⟩
+  · intro ⟨w, c, hx⟩
+    exact ⟨lt_of_getElem? hx, by simp [hx]⟩
+
+theorem holder_exists (s : St) (ms : C02St) (hR : RelC02 s ms) (hq : quiescent s = true) (m : Bool)
+    (hc : 0 < s.th.countP (TS.holds m)) : ∃ u, (u, m) ∈ ms.holders := by
+  obtain ⟨i, x, hx, hp⟩ := countP_pos_exists _ _ hc
+  have hqx := quiet_of_quiescent s hq i x hx
+  cases x <;> simp [TS.quiet] at hqx <;> simp at hp
+  rename_i w
+  subst hp
+  rcases hR.cover i m hx with h1 | ⟨c, hcx⟩
+  · exact ⟨i, h1⟩
+  · have := quiet_of_quiescent s hq c _ hcx
+    simp [TS.quiet] at this
+
+theorem quiesce_ok (s : St) (ms : C02St) (hR : RelC02 s ms) (hq : quiescent s = true) :
+    ∃ ms', monC02.step ms (.quiesce (pendingIds s)) = some ms' ∧ RelC02 s ms' := by
+  have hi := hR.inv
+  -- facts about pending calls
+  have pend : ∀ t, t ∈ pendingIds s → ∃ w c, s.th[t]? = some (TS.parked w c) ∧ modeOf ms t = some w ∧
+      s.bc.closed c = false ∧ t ∉ s.cx := by
+    intro t ht
+    obtain ⟨w, c, hx⟩ := (mem_pendingIds s t).mp ht
+    have hqx := quiet_of_quiescent s hq t _ hx
+    simp [TS.quiet] at hqx
+    exact ⟨w, c, hx, hR.thr.modes t _ w hx rfl, hqx.1, hqx.2⟩
+  have c1 : (pendingIds s).any (fun t => ms.cancelled.contains t) = false := by
+    rw [List.any_eq_false]
+    intro t ht
+    obtain ⟨w, c, _, _, _, hcx⟩ := pend t ht
+    rw [hR.cx]; simpa using hcx
+  have c2 : (pendingIds s).any (pendingGrantable ms (pendingIds s)) = false := by
+    rw [List.any_eq_false]
+    intro t ht
+    obtain ⟨w, c, hx, hmode, hopen, _⟩ := pend t ht
+    have hb := (hi.parked t w c hx).2 hopen
+    simp only [pendingGrantable, hmode]
+    unfold blocked at hb
+    unfold grantable
+    cases w
+    · -- reader: a writer holds or waits
+      simp only [Bool.false_eq_true, if_false] at hb ⊢
+      rcases hb with hb | hb
+      · have : 0 < s.th.countP (TS.holds true) := by rw [hi.writers]; simp [hb]
+        obtain ⟨u, hu⟩ := holder_exists s ms hR hq true this
+        have : ms.holders.all (fun h => !h.2) = false := by
+          rw [List.all_eq_false]; exact ⟨(u, true), hu, by simp⟩
+        simp [this]
+      · have : 0 < s.th.countP TS.waitingWriter := by rw [← hi.ww]; omega
+        obtain ⟨i, x, hxi, hp⟩ := countP_pos_exists _ _ this
+        have hqx := quiet_of_quiescent s hq i x hxi
+        cases x <;> simp [TS.quiet] at hqx <;> simp at hp
+        rename_i w' c'
+        subst hp
+        have hmem : i ∈ pendingIds s := (mem_pendingIds s i).mpr ⟨true, c', hxi⟩
+        have hmi := hR.thr.modes i _ true hxi rfl
+        have : (pendingIds s).all (fun u => modeOf ms u != some true) = false := by
+          rw [List.all_eq_false]; exact ⟨i, hmem, by simp [hmi]⟩
+        simp [this]
+    · -- writer: somebody holds
+      simp only [if_true] at hb ⊢
+      have : ∃ m, 0 < s.th.countP (TS.holds m) := by
+        rcases hb with hb | hb
+        · exact ⟨false, by rw [← hi.readers]; omega⟩
+        · exact ⟨true, by rw [hi.writers]; simp [hb]⟩
+      obtain ⟨m, hm⟩ := this
+      obtain ⟨u, hu⟩ := holder_exists s ms hR hq m hm
+      cases hh : ms.holders with
+      | nil => rw [hh] at hu; cases hu
+      | cons _ _ => simp
+  refine ⟨{ ms with waitingW := (pendingIds s).filter (fun t => modeOf ms t == some true) }, ?_, ?_⟩
+  · simp only [monC02, c1, c2]
+    simp
+  · refine ⟨hR.inv, hR.rel2, hR.cover, ?_, hR.mlt, hR.cx⟩
+    have wnew : ∀ u, u ∈ ms.waitingW → u ∈ (pendingIds s).filter (fun t => modeOf ms t == some true) := by
+      intro u hu
+      obtain ⟨x, hx, hw, _⟩ := hR.thr.ww u hu
+      have hqx := quiet_of_quiescent s hq u x hx
+      rcases wwait_cases x hw with ⟨c, rfl⟩ | rfl
+      · rw [List.mem_filter]
+        exact ⟨(mem_pendingIds s u).mpr ⟨true, c, hx⟩, by simp [hR.thr.modes u _ true hx rfl]⟩
+      · simp [TS.quiet] at hqx
+    constructor
+    · intro u x w hu hm; exact hR.thr.modes u x w hu hm
+    · exact hR.thr.cxst
+    · intro u hu
+      rw [List.mem_filter] at hu
+      obtain ⟨w, c, hx, hmode, _, hcx⟩ := pend u hu.1
+      have : w = true := by
+        have := hu.2; rw [hmode] at this; simpa using this
+      subst this
+      exact ⟨_, hx, by simp [TS.wwait], fun _ => hcx⟩
+    · intro r u hm
+      obtain ⟨h1, hx⟩ := hR.thr.bl r u hm
+      exact ⟨wnew u h1, hx⟩
+
+
+theorem relC02_init : RelC02 ({} : St) ({} : C02St) := by
+  refine ⟨init_inv, ⟨by intro t w hm; simp at hm, by intro c t hc; simp at hc⟩, by intro t w h; simp at h, ?_, by intro p hp; simp at hp, rfl⟩
+  exact ⟨by intro t x w h; simp at h, by intro t x h; simp at h, by intro u hu; simp at hu, by intro r u hm; simp at hm⟩
+
+/-- a thread move that none of the monitor-related predicates notice -/
+theorem RelC02.plain_move {s : St} {ms : C02St} (hR : RelC02 s ms) {t : Nat} {a : TS} (b : TS) (s' : St)
+    (hs' : s'.th = s.th.set t b) (hcx : s'.cx = s.cx) (hi' : Inv s')
+    (ha : s.th[t]? = some a) (hnh : ∀ w, a ≠ TS.held w) (hnr : a.isRelInv = false)
+    (hb0 : ∀ x, b ≠ TS.relInv x) (hb1 : b.isHeld = false) (hab : a.afterHeld = true → b.afterHeld = true)
+    (ok : MoveOK ms s.cx t a b) : RelC02 s' ms := by
+  refine ⟨hi', ?_, ?_, ?_, ?_, ?_⟩
+  · rw [hs']; exact hR.rel2.move _ ha hnh hb0 hab
+  · rw [hs']; exact Cover.move hR.cover _ ha hnr hb1
+  · rw [hs', hcx]; exact hR.thr.move _ ha ok
+  · intro p hp; rw [hs']; simpa using hR.mlt p hp
+  · rw [hcx]; exact hR.cx
+
+/-- **C02 (observable form): simulation step.** -/
+theorem c02_sim_step (s : St) (e : Ev) (s' : St) (ms : C02St) (hR : RelC02 s ms)
+    (hstep : step s e = some s') :
+    match Ev.obs e with
+    | none => RelC02 s' ms
+    | some o => ∃ ms', monC02.step ms o = some ms' ∧ RelC02 s' ms' := by
+  have hi := hR.inv
+  have hi' := step_inv s e s' hi hstep
+  cases e with
+  | invLock t w =>
+    simp only [step] at hstep; split at hstep <;> simp at hstep; subst hstep
+    rename_i ht
+    refine ⟨_, rfl, hi', rel2_append _ _ _ hR.rel2 (by intro x hx; cases hx), Cover.append hR.cover _ rfl, ?_, ?_, hR.cx⟩
+    · constructor
+      · intro u x w' hu hm
+        rcases getElem?_snoc_cases _ _ _ _ hu with ⟨hlt, hu'⟩ | ⟨rfl, rfl⟩
+        · have hne : t ≠ u := by omega
+          rw [modeOf_cons_ne ms _ t u w rfl hne]; exact hR.thr.modes u x w' hu' hm
+        · simp [TS.lockMode] at hm; subst hm; subst ht; exact modeOf_cons_eq ms _ _ _ rfl
+      · intro u x hu hc
+        rcases getElem?_snoc_cases _ _ _ _ hu with ⟨_, hu'⟩ | ⟨_, rfl⟩
+        · exact hR.thr.cxst u x hu' hc
+        · simp [TS.cancelSt] at hc
+      · intro u hu
+        obtain ⟨x, hx, hw, hp⟩ := hR.thr.ww u hu
+        exact ⟨x, getElem?_snoc_left _ _ _ _ hx, hw, hp⟩
+      · intro r u hm
+        cases w
+        · simp only [Bool.false_eq_true, if_false, List.mem_append, List.mem_map] at hm
+          rcases hm with ⟨u', hu', he⟩ | hm
+          · cases he
+            refine ⟨hu', .lockInv false, ?_, rfl⟩
+            subst ht; simp
+          · obtain ⟨h1, x, hx, hr⟩ := hR.thr.bl r u hm
+            exact ⟨h1, x, getElem?_snoc_left _ _ _ _ hx, hr⟩
+        · simp only [if_true] at hm
+          obtain ⟨h1, x, hx, hr⟩ := hR.thr.bl r u hm
+          exact ⟨h1, x, getElem?_snoc_left _ _ _ _ hx, hr⟩
+    · intro p hp
+      simp at hp
+      rcases hp with rfl | hp
+      · simp [ht]
+      · have := hR.mlt p hp; simp; omega
+  | invTry t w =>
+    simp only [step] at hstep; split at hstep <;> simp at hstep; subst hstep
+    refine ⟨ms, rfl, hi', rel2_append _ _ _ hR.rel2 (by intro x hx; cases hx), Cover.append hR.cover _ rfl,
+      hR.thr.append _ rfl rfl, ?_, hR.cx⟩
+    intro p hp; have := hR.mlt p hp; simp; omega
+  | lockCS t =>
+    simp only [step] at hstep; split at hstep <;> simp at hstep; subst hstep
+    rename_i w h
+    refine ⟨hi', rel2_attempt s _ t w true _ hR.rel2 h (by intro w h; cases h) rfl,
+      attempt_cover s _ t w true _ hR.cover h rfl, ?_, ?_, ?_⟩
+    · rw [attempt_cx]; exact attempt_threl s ms t w true _ hi hR.thr h (Or.inl rfl)
+    · intro p hp; rw [attempt_len]; exact hR.mlt p hp
+    · rw [attempt_cx]; exact hR.cx
+  | wakeCS t =>
+    simp only [step] at hstep; split at hstep <;> simp at hstep
+    obtain ⟨_, rfl⟩ := hstep; rename_i w c h _
+    refine ⟨hi', rel2_attempt s _ t w false _ hR.rel2 h (by intro w h; cases h) rfl,
+      attempt_cover s _ t w false _ hR.cover h rfl, ?_, ?_, ?_⟩
+    · rw [attempt_cx]; exact attempt_threl s ms t w false _ hi hR.thr h (Or.inr ⟨c, rfl⟩)
+    · intro p hp; rw [attempt_len]; exact hR.mlt p hp
+    · rw [attempt_cx]; exact hR.cx
+  | ctxTake t =>
+    simp only [step] at hstep; split at hstep <;> simp at hstep
+    obtain ⟨hcx, rfl⟩ := hstep; rename_i w c h
+    refine hR.plain_move (.cancelling w) _ rfl rfl hi' h (by intro w h; cases h) rfl (by intro x hx; cases hx) rfl (by simp [TS.afterHeld]) ?_
+    exact ⟨by intro w' hm; simpa [TS.lockMode] using hm, fun _ => Or.inr hcx,
+           fun _ => Or.inr (Or.inl ⟨rfl, hcx⟩), by cases w <;> simp [TS.readerPending]⟩
+  | cancelCS t =>
+    simp only [step] at hstep; split at hstep <;> try simp at hstep
+    rename_i w h
+    have ok : MoveOK ms s.cx t (.cancelling w) .cancelled :=
+      ⟨by intro w' hm; simp [TS.lockMode] at hm, fun _ => Or.inl rfl, by simp [TS.wwait], fun _ => Or.inl rfl⟩
+    split at hstep <;> simp at hstep <;> subst hstep <;>
+      exact hR.plain_move .cancelled _ rfl rfl hi' h (by intro w h; cases h) rfl (by intro x hx; cases hx) rfl (by simp [TS.afterHeld]) ok
+  | retLock t r =>
+    simp only [step] at hstep; split at hstep <;> simp at hstep
+    · -- Lock returns the release function
+      obtain ⟨rfl, rfl⟩ := hstep; rename_i w h
+      have nobl : ∀ u, (t, u) ∉ (forgetCall ms t).blockers := by
+        intro u hm
+        simp only [forgetCall, List.mem_filter] at hm
+        obtain ⟨_, x, hx, hr⟩ := hR.thr.bl t u hm.1
+        rw [h] at hx; cases hx
+        cases w <;> simp [TS.readerPending] at hr
+      have hany : (forgetCall ms t).blockers.any (fun p => p.1 == t) = false := by
+        rw [List.any_eq_false]
+        intro p hp he
+        have : p = (t, p.2) := by
+          have : p.1 = t := by simpa using he
+          rw [← this]
+        rw [this] at hp; exact nobl _ hp
+      refine ⟨{ forgetCall ms t with holders := (t, w) :: ms.holders }, ?_, hi', ?_, ?_, ?_, ?_, hR.cx⟩
+      · have hany' : (ms.blockers.filter (fun p => p.2 != t)).any (fun p => p.1 == t) = false := hany
+        simp [monC02, forgetCall, hany']
+      · exact rel2_grant hR.rel2 w h (by intro w h; cases h) rfl
+      · exact Cover.grant hR.cover w h rfl
+      · refine ((hR.thr.forget t).move (.held w) h ?_).holders _
+        exact ⟨by intro w' hm; simp [TS.lockMode] at hm, by simp [TS.cancelSt],
+               fun _ => Or.inr (Or.inr (forget_not_ww ms t)),
+               by cases w <;> simp [TS.readerPending]⟩
+      · intro p hp; simp; exact hR.mlt p hp
+    · -- Lock returns Canceled
+      subst hstep; rename_i h
+      have hc : ms.cancelled.contains t = true := by
+        rw [hR.cx]; simpa using hR.thr.cxst t _ h rfl
+      refine ⟨forgetCall ms t, ?_, hi', ?_, ?_, ?_, ?_, hR.cx⟩
+      · have hc' : t ∈ ms.cancelled := by simpa using hc
+        simp [monC02, forgetCall, hc']
+      · exact hR.rel2.move _ h (by intro w h; cases h) (by intro x hx; cases hx) (by simp [TS.afterHeld])
+      · exact Cover.move hR.cover _ h rfl rfl
+      · exact (hR.thr.forget t).move .finished h
+          ⟨by intro w' hm; simp [TS.lockMode] at hm, by simp [TS.cancelSt], by simp [TS.wwait], fun _ => Or.inl rfl⟩
+      · intro p hp; simp; exact hR.mlt p hp
+  | retTry t r =>
+    simp only [step] at hstep; split at hstep <;> simp at hstep
+    · obtain ⟨rfl, rfl⟩ := hstep; rename_i w h
+      refine ⟨{ ms with holders := (t, w) :: ms.holders }, rfl, hi', ?_, ?_, ?_, ?_, hR.cx⟩
+      · exact rel2_grant hR.rel2 w h (by intro w h; cases h) rfl
+      · exact Cover.grant hR.cover w h rfl
+      · exact (hR.thr.move (.held w) h (MoveOK.plain _ _ _ _ _ rfl rfl rfl (Or.inl rfl))).holders _
+      · intro p hp; simp; exact hR.mlt p hp
+    · subst hstep; rename_i h
+      exact ⟨ms, rfl, hR.plain_move .finished _ rfl rfl hi' h (by intro w h; cases h) rfl (by intro x hx; cases hx) rfl
+        (by simp [TS.afterHeld]) (MoveOK.plain _ _ _ _ _ rfl rfl rfl (Or.inl rfl))⟩
+  | tryCS t =>
+    simp only [step] at hstep; split at hstep <;> try simp at hstep
+    rename_i w h
+    split at hstep <;> split at hstep <;> simp at hstep <;> subst hstep <;>
+      exact hR.plain_move _ _ rfl rfl hi' h (by intro w h; cases h) rfl (by intro x hx; cases hx) rfl
+        (by simp [TS.afterHeld]) (MoveOK.plain _ _ _ _ _ rfl rfl rfl (Or.inl rfl))
+  | envCancel t =>
+    simp only [step] at hstep; split at hstep <;> simp at hstep; subst hstep
+    refine ⟨{ forgetCall ms t with cancelled := t :: ms.cancelled }, ?_, hi', hR.rel2, hR.cover, ?_, hR.mlt, ?_⟩
+    · simp [monC02, forgetCall]
+    · have h0 := hR.thr.forget t
+      constructor
+      · intro u x w hu hm; exact h0.modes u x w hu hm
+      · intro u x hu hc; simp; exact Or.inr (h0.cxst u x hu hc)
+      · intro u hu
+        have hne : u ≠ t := by
+          intro e; subst e; exact forget_not_ww ms u hu
+        obtain ⟨x, hx, hw, hp⟩ := h0.ww u hu
+        exact ⟨x, hx, hw, fun hpk => by simp; exact ⟨hne, hp hpk⟩⟩
+      · intro r u hm; exact h0.bl r u hm
+    · simp [hR.cx]
+  | invRel c t =>
+    simp only [step] at hstep; split at hstep <;> try simp at hstep
+    rename_i hc
+    have hsub : ∀ x, x ∈ ms.holders.filter (fun h => h.1 != t) → x ∈ ms.holders := by
+      intro x hx; exact (List.mem_filter.mp hx).1
+    have hnot : ∀ w, (t, w) ∉ ms.holders.filter (fun h => h.1 != t) := by
+      intro w hm; have := (List.mem_filter.mp hm).2; simp at this
+    have fin : ∀ (x : TS), s.th[t]? = some x → x.afterHeld = true →
+        ∃ ms', monC02.step ms (.invRel c t) = some ms' ∧ RelC02 { s with th := s.th ++ [.relInv t] } ms' := by
+      intro x hx hax
+      have hi2 : Inv { s with th := s.th ++ [.relInv t] } :=
+        inv_append s _ hi rfl rfl rfl (by intro w c h; cases h)
+      refine ⟨{ ms with holders := ms.holders.filter (fun h => h.1 != t) }, rfl, hi2, ?_, ?_, ?_, ?_, hR.cx⟩
+      · refine rel2_append _ _ _ (hR.rel2.subset hsub) ?_
+        intro y hy; cases hy
+        exact ⟨hnot, x, hx, hax⟩
+      · intro u w hu
+        rcases getElem?_snoc_cases _ _ _ _ hu with ⟨_, hu'⟩ | ⟨_, hy⟩
+        · by_cases e : u = t
+          · subst e
+            exact Or.inr ⟨s.th.length, by simp⟩
+          · rcases hR.cover u w hu' with h1 | ⟨c', hc'⟩
+            · left; rw [List.mem_filter]; exact ⟨h1, by simpa using e⟩
+            · exact Or.inr ⟨c', getElem?_snoc_left _ _ _ _ hc'⟩
+        · cases hy
+      · exact (hR.thr.append _ rfl rfl).holders _
+      · intro p hp; have := hR.mlt p hp; simp; omega
+    split at hstep <;> simp at hstep <;> subst hstep
+    · rename_i w h; exact fin _ h rfl
+    · rename_i w h; exact fin _ h rfl
+    · rename_i h; exact fin _ h rfl
+  | relSwap c =>
+    simp only [step] at hstep; split at hstep <;> try simp at hstep
+    rename_i t hc
+    split at hstep <;> simp at hstep <;> subst hstep
+    · rename_i w ht
+      have hne : t ≠ c := by intro e; subst e; rw [hc] at ht; cases ht
+      have hnot := (hR.rel2.rel c t hc).1
+      have hc' : (s.th.set t (.releasing w))[c]? = some (.relInv t) := by
+        rw [getElem?_set_ne' _ _ _ _ hne]; exact hc
+      have r2 : Rel2 (s.th.set t (.releasing w)) ms.holders :=
+        rel2_set _ _ t _ _ hR.rel2 ht (fun w' => Or.inl (hnot w')) (by intro x hx; cases hx) (by simp [TS.afterHeld])
+      have cv : Cover (s.th.set t (.releasing w)) ms.holders := Cover.move hR.cover _ ht rfl rfl
+      have tr : ThRel (s.th.set t (.releasing w)) s.cx ms :=
+        hR.thr.move _ ht (MoveOK.plain _ _ _ _ _ rfl rfl rfl (Or.inl rfl))
+      refine ⟨hi', r2.move _ hc' (by intro w h; cases h) (by intro x hx; cases hx) (by simp [TS.afterHeld]), ?_,
+        tr.move _ hc' (MoveOK.plain _ _ _ _ _ rfl rfl rfl (Or.inl rfl)), ?_, hR.cx⟩
+      · -- cover: the only held thread that relied on witness `c` was `t`, which is no longer held
+        intro u w' hu
+        rcases getElem?_set_cases _ _ _ _ _ hu with ⟨_, hx⟩ | ⟨hnec, hu1⟩
+        · cases hx
+        · rcases getElem?_set_cases _ _ _ _ _ hu1 with ⟨_, hx⟩ | ⟨hnet, hu2⟩
+          · cases hx
+          · rcases hR.cover u w' hu2 with h1 | ⟨c', hc2⟩
+            · exact Or.inl h1
+            · have h1 : c' ≠ c := by
+                intro e; subst e; rw [hc] at hc2; cases hc2; exact hnet rfl
+              have h2 : c' ≠ t := by
+                intro e; subst e; rw [ht] at hc2; cases hc2
+              refine Or.inr ⟨c', ?_⟩
+              rw [getElem?_set_ne' _ _ _ _ (Ne.symm h1), getElem?_set_ne' _ _ _ _ (Ne.symm h2)]; exact hc2
+      · intro p hp; simp; exact hR.mlt p hp
+    · rename_i hnh
+      refine ⟨hi', hR.rel2.move _ hc (by intro w h; cases h) (by intro x hx; cases hx) (by simp [TS.afterHeld]), ?_,
+        hR.thr.move _ hc (MoveOK.plain _ _ _ _ _ rfl rfl rfl (Or.inl rfl)), ?_, hR.cx⟩
+      · intro u w' hu
+        rcases getElem?_set_cases _ _ _ _ _ hu with ⟨_, hx⟩ | ⟨hnec, hu1⟩
+        · cases hx
+        · rcases hR.cover u w' hu1 with h1 | ⟨c', hc2⟩
+          · exact Or.inl h1
+          · have h1 : c' ≠ c := by
+              intro e; subst e; rw [hc] at hc2; cases hc2
+              exact hnh w' hu1
+            exact Or.inr ⟨c', by rw [getElem?_set_ne' _ _ _ _ (Ne.symm h1)]; exact hc2⟩
+      · intro p hp; simp; exact hR.mlt p hp
+  | relCS c =>
+    simp only [step] at hstep; split at hstep <;> try simp at hstep
+    rename_i t hc
+    split at hstep <;> simp at hstep; subst hstep
+    rename_i w ht
+    have hne : t ≠ c := by intro e; subst e; rw [hc] at ht; cases ht
+    have hc' : (s.th.set t .finished)[c]? = some (.relCS t) := by
+      rw [getElem?_set_ne' _ _ _ _ hne]; exact hc
+    have r2 : Rel2 (s.th.set t .finished) ms.holders :=
+      hR.rel2.move _ ht (by intro w h; cases h) (by intro x hx; cases hx) (by simp [TS.afterHeld])
+    have cv : Cover (s.th.set t .finished) ms.holders := Cover.move hR.cover _ ht rfl rfl
+    have tr : ThRel (s.th.set t .finished) s.cx ms :=
+      hR.thr.move _ ht (MoveOK.plain _ _ _ _ _ rfl rfl rfl (Or.inl rfl))
+    exact ⟨hi', r2.move _ hc' (by intro w h; cases h) (by intro x hx; cases hx) (by simp [TS.afterHeld]),
+      Cover.move cv _ hc' rfl rfl, tr.move _ hc' (MoveOK.plain _ _ _ _ _ rfl rfl rfl (Or.inl rfl)),
+      by intro p hp; simp; exact hR.mlt p hp, hR.cx⟩
+  | retRel c =>
+    simp only [step] at hstep; split at hstep <;> simp at hstep; subst hstep
+    rename_i h
+    exact ⟨ms, rfl, hR.plain_move .finished _ rfl rfl hi' h (by intro w h; cases h) rfl (by intro x hx; cases hx) rfl
+      (by simp [TS.afterHeld]) (MoveOK.plain _ _ _ _ _ rfl rfl rfl (Or.inl rfl))⟩
+  | quiesce B =>
+    simp only [step] at hstep; split at hstep <;> simp at hstep; subst hstep
+    rename_i hq
+    obtain ⟨hq1, rfl⟩ := hq
+    exact quiesce_ok s ms hR hq1
+
+/-- **C02 (observable form).** Every observable trace of the RWMutex model — for every number of
+callers and every interleaving of critical sections, wake-ups, cancellations and releases — is
+accepted by `monC02`: at every quiescence point no pending caller is grantable under its own rule
+and no cancelled caller is still pending; `Lock` returns `Canceled` only if its context was
+cancelled; a reader invoked while a writer was known to be waiting is not granted before that
+writer returned or was cancelled. -/
+theorem C02_obs_rw (es : List Ev) (s : St) (h : model.run model.init es = some s) :
+    monC02.accepts (es.filterMap model.obs) = true :=
+  monitor_accepts_of_simulation model monC02 RelC02 relC02_init
+    (fun s e s' ms hR hs => by
+      have h := c02_sim_step s e s' ms hR hs
+      cases e <;> exact h) es s h
 
 end UtilModel.CSync.RW
